@@ -91,6 +91,32 @@ pub fn exec(case: &Value) -> Value {
         Ok(c) => c,
         Err(e) => return e,
     };
+    // every third case: the rules as the compiler holds them are written out (`Serialize`), read back into a fresh
+    // compiler, and the engine built from that must answer every event like the first one (a dumped rule set is the
+    // rule set)
+    let n_rules0 = case["rules"].as_array().map(|a| a.len()).unwrap_or(0);
+    let n_events0 = case["events"].as_array().map(|a| a.len()).unwrap_or(0);
+    let mut reloaded: Option<Engine> = None;
+    if (n_rules0 * 5 + n_events0) % 3 == 0 {
+        let mut c2 = c.clone();
+        let dumped = catch_unwind(AssertUnwindSafe(|| -> Option<String> {
+            let rs = c2.rules().ok()?;
+            let mut t = String::new();
+            for r in rs {
+                t.push_str("---\n");
+                t.push_str(&serde_yaml::to_string(r).ok()?);
+            }
+            Some(t)
+        }));
+        if let Ok(Some(text)) = dumped {
+            let mut c3 = Compiler::new();
+            match catch_unwind(AssertUnwindSafe(|| c3.load_rules_from_str(&text).ok().and_then(|_| Engine::try_from(c3).ok()))) {
+                Ok(Some(e)) => reloaded = Some(e),
+                Ok(None) => return json!({"dump-reload": "the dumped rules do not load / compile", "text": text}),
+                Err(_) => return json!({"dump-reload": "panic"}),
+            }
+        }
+    }
     let mut eng = match build(c) {
         Ok(e) => e,
         Err(e) => return e,
@@ -104,7 +130,26 @@ pub fn exec(case: &Value) -> Value {
     let mut outs = vec![];
     for ev in case["events"].as_array().cloned().unwrap_or_default() {
         match event_from_json(&ev) {
-            Ok(ev) => outs.push(scan_outcome(&mut eng, &ev)),
+            Ok(ev) => {
+                let o = scan_outcome(&mut eng, &ev);
+                if let Some(e2) = reloaded.as_mut() {
+                    let o2 = scan_outcome(e2, &ev);
+                    // which of several failing rules an error names may follow hash order: compared without it
+                    let norm = |v: &Value| -> Value {
+                        let mut v = v.clone();
+                        if let Some(e) = v.get_mut("err").and_then(|e| e.as_object_mut()) {
+                            e.remove("rule");
+                            e.remove("kind");
+                        }
+                        v
+                    };
+                    if norm(&o2) != norm(&o) {
+                        outs.push(json!({"dump-reload-differs": {"loaded": o, "dumped and reloaded": o2}}));
+                        continue;
+                    }
+                }
+                outs.push(o)
+            }
             Err(e) => outs.push(json!({ "badevent": e })),
         }
     }
